@@ -1,18 +1,20 @@
 package main
 
 import (
+	"bufio"
 	"encoding/json"
 	"flag"
 	"fmt"
 	"io"
 	"os"
 	"os/exec"
+	"strings"
 	"sync"
 	"syscall"
 	"time"
 
-	redisemu "github.com/jimsnab/go-redisemu"
 	"github.com/jimsnab/go-lane"
+	redisemu "github.com/jimsnab/go-redisemu"
 )
 
 // serveMain hosts one emulator instance; it is always run as a child process so that a panic
@@ -21,6 +23,7 @@ func serveMain(args []string) {
 	fs := flag.NewFlagSet("serve", flag.ExitOnError)
 	port := fs.Int("port", 7379, "tcp port")
 	persist := fs.String("persist", "", "persist base path")
+	savestages := fs.String("savestages", "", "directory receiving a copy of the persist files at every stage of every snapshot write (verif hook)")
 	memlimit := fs.Int("memlimit", 0, "address-space limit in MB (hostile-input runs: an absurd allocation must kill this child, not the machine)")
 	treehook := fs.Bool("treehook", false, "install a dispatch hook (public SetHook API): ECHO <json reply tree> replies that tree")
 	fs.Parse(args)
@@ -34,6 +37,7 @@ func serveMain(args []string) {
 		fmt.Println("ERROR", err)
 		os.Exit(3)
 	}
+	setSaveStages(*savestages, *persist)
 	installServeHooks()
 	if *treehook {
 		emu.SetHook(func(cmd string, args map[string]any) (bool, any, error) {
@@ -51,13 +55,17 @@ func serveMain(args []string) {
 	emu.Start()
 	fmt.Println("READY")
 	// exit when the parent closes our stdin (or sends "close": clean shutdown, used by persistence checks)
-	buf := make([]byte, 64)
+	rd := bufio.NewReader(os.Stdin)
 	for {
-		n, err := os.Stdin.Read(buf)
-		if n > 0 && string(buf[:n]) == "close\n" {
+		line, err := rd.ReadString('\n')
+		line = strings.TrimSpace(line)
+		switch {
+		case line == "close":
 			emu.Close()
 			fmt.Println("CLOSED")
 			os.Exit(0)
+		case line != "":
+			controlLine(line)
 		}
 		if err != nil {
 			os.Exit(0)
